@@ -146,6 +146,12 @@ def compare_with_ref(ref, impl, out, case, what="table differs from the StarTabl
             return False
         for i, ((kind, val), got) in enumerate(zip(rcol, icol["v"])):
             if kind != icol["k"] or not same_value(kind, val, got):
+                if (kind == "text" and icol["k"] == "text" and isinstance(val, str) and val.endswith("\x00")
+                        and got == val.rstrip("\x00")):
+                    # numpy's fixed-width string array drops trailing NUL characters (known finding F3)
+                    out.fail("a text cell ending in NUL characters is not kept unchanged (the NULs are dropped)",
+                             dict(case, column=j, row=i), {"k": "text", "v": got}, [kind, val], key="text_trailing_nul")
+                    return False
                 out.fail(what, dict(case, column=j, row=i), {"k": icol["k"], "v": got}, [kind, str(val)],
                          key="typing:" + ref["units"][j if ref["units"][j] in ("text", "onoff", "datetime") else j]
                          if False else "typing:" + (ref["units"][j] if ref["units"][j] in ("text", "onoff", "datetime") else "numeric"))
@@ -156,16 +162,18 @@ def compare_with_ref(ref, impl, out, case, what="table differs from the StarTabl
 # ---------------------------------------------------------------- well-formed grids
 
 WF_SPELL = {
-    "text": ["", "a", " a ", "-", "nan", "None", "1.5", "é µ", "*", "x" * 12, " ", "TRUE", "k:"],
-    "onoff": ["0", "1", "true", "false", "True", "FALSE", " tRuE ", " 0 ", "TRUE\n"],
+    "text": ["", "a", " a ", "-", "nan", "None", "1.5", "é µ", "*", "x" * 12, " ", "TRUE", "k:", "a\x00b", "z\x00"],
+    "onoff": ["0", "1", "true", "false", "True", "FALSE", " tRuE ", " 0 ", "TRUE\n"] + rc.BOOL_CASES,
     "datetime": ["2020-01-02", "2020-01-02 03:04:05", "2020-01-02T03:04:05.000006", "2020-1-2", "20200102", "-", "nan",
                  "NaN", " NAN ", " - ", "2262-04-12", "1677-01-01", "2020",
                  # UTC designator / offsets: the parsed value is the zone-aware instant (a column mixing zones is an
                  # input error and is skipped by the oracle)
                  "2020-08-04T08:00:00Z", "2020-08-04 08:00:00+01:00", "2020-08-04T08:00:00z"],
     "num": ["0", "1", "-1", "1.5", "-0.0", "1e3", "1E-3", ".5", "5.", "+2", "1_000", "inf", "-inf", "Infinity", "1e400",
-            "nan", "NaN", "-", " - ", " NAN ", "3.14159265358979", "123456789012345678", "1e-400", " 7 ", "１２", "١٢"],
+            "nan", "NaN", "-", " - ", " NAN ", "3.14159265358979", "123456789012345678", "1e-400", " 7 ", "１２", "١٢"]
+           + rc.NAN_CASES,
 }
+WF_SPELL["datetime"] = WF_SPELL["datetime"] + rc.NAN_CASES
 WF_NATIVE = {
     "text": ["s", "", 5, 1.5, True, None, datetime.datetime(2020, 1, 2)],
     "onoff": [True, False, 0, 1, 0.0, 1.0, -0.0, "true"],
@@ -209,6 +217,12 @@ def wf_grid(rng, native=False):
             if rng.random() < 0.3:
                 line += [rng.choice(["", None] if native else [""])] * rng.randint(1, 3)
             grid.append(line)
+        if n_col and rng.random() < 0.25:
+            # a line with a blank name cell ends the columns: it and everything after it is comment
+            grid.append([rng.choice(["", " ", None] if native else ["", " "]), "comment", "more", "x"])
+            for _ in range(rng.randint(0, 2)):
+                grid.append([rng.choice(["note", "zz"]), rng.choice(["-", "text", "kg"])]
+                            + [rng.choice(WF_SPELL["num"]) for _ in range(rng.randint(0, n_row + 1))])
     else:
         nrow = [pad(n) for n in names]
         if rng.random() < 0.3:
@@ -218,6 +232,21 @@ def wf_grid(rng, native=False):
         for r in data:
             grid.append(list(r) + [""] * (rng.randint(1, 2) if rng.random() < 0.2 else 0))
     return grid, {"transposed": transposed, "kinds": kinds, "n_row": n_row}
+
+
+def mixed_offsets(ref):
+    """does some datetime column of the reference table hold timestamps with two different UTC offsets?"""
+    import re
+    for u, col in zip(ref["units"], ref["columns"]):
+        if u == "datetime":
+            offs = set()
+            for k, tok in col:
+                if k == "dt" and tok != "NaT":
+                    m = re.search(r"T.*?([+-]\d\d:\d\d|Z)$", tok)
+                    offs.add(m.group(1) if m else "")
+            if len(offs) > 1:
+                return True
+    return False
 
 
 def rc_blank(c):
@@ -305,6 +334,7 @@ def run(tier, seed, model_ok, translator, search=False):
                 warnings.simplefilter("ignore")
                 ref = ref_table(grid)
         except (KeyError, ValueError):
+            out.count("c:reference-interpreter-rejects (not well formed after all, e.g. out-of-range timestamp)")
             continue            # generator produced a defect after all (e.g. out-of-range timestamp): not WF
         out.evaluations += 1
         out.nontrivial.add(hash(repr(grid)))
@@ -312,7 +342,8 @@ def run(tier, seed, model_ok, translator, search=False):
             out.samples.append(case)
         out.count("c:orientation:" + ("transposed" if info["transposed"] else "rowwise"))
         if "exc" in impl:
-            if impl["exc"] == "ColumnUnitException":
+            if impl["exc"] == "ColumnUnitException" and mixed_offsets(ref):
+                out.count("c:mixed-utc-offsets-skipped")
                 continue        # mixed UTC offsets in one datetime column: an input error (C12), not a typing matter
             out.fail("well-formed grid rejected", case, impl, None, key="wf_rejected:" + impl["exc"])
             continue
@@ -416,8 +447,8 @@ def locality(rng, grid, info, base, out, case):
         g2[4 + row][other] = newcell
     impl2 = rc.impl_make_table(g2, "strict")
     if "exc" in impl2:
-        if impl2["exc"] == "ColumnUnitException":
-            return
+        if impl2["exc"] == "ColumnUnitException" and kind == "datetime":
+            return      # the rewritten cell carries another UTC offset than its column: an input error (C12)
         out.fail("rewriting a cell of another column made the table unreadable", dict(case, rewritten=grid_to_json(g2)),
                  impl2, None, key="locality_exc")
         return
